@@ -5,6 +5,8 @@
 (*    obs |-> << [r, k, out, logs, code] >>]                               *)
 (* r: the rendering  "c" run time (operands laundered, nothing folded)     *)
 (*                   "a" const declaration     "g" configurable            *)
+(*                   "h" const declaration whose initializer reaches the    *)
+(*                       operation through two const fns (fl(a,b)=cf(b,a))  *)
 (*                   "b" literals in a function body, release build        *)
 (*                   "p" the same through ccp (operand known from `x == a`)*)
 (*                   "f" the real const-folding pass run on the one IR      *)
@@ -36,7 +38,7 @@ RunIs(s, o) ==
 
 ObsOK(s, x, o) ==
     CASE o.r = "c" -> RunIs(s, o)
-      [] o.r \in {"a", "g"} ->
+      [] o.r \in {"a", "g", "h"} ->
             IF o.k = "ran" THEN s.k = "val" /\ RunIs(s, o)              \* a value was substituted: it must be Sem's
             ELSE o.k = "cerror" /\ Refuse \in AllowedCompileTime(s, x)
       [] o.r \in {"b", "p"} ->
